@@ -63,7 +63,9 @@ def parse_descriptor(d):
         while i < n and 48 <= d[i] <= 57:
             i += 1
         v = int(d[j:i])
-        return min(v, 2 ** 63 - 1)
+        if v > 2 ** 31 - 2:
+            raise DescError('EINVAL')      # a subscript has to fit in an int, with room for the length of the list
+        return v
 
     state = 0
     while True:
@@ -147,7 +149,7 @@ def parse_descriptor(d):
     if d[i] == 61:
         return steps, 'assign', d[i + 1:]
     if d[i] == 35:
-        return steps, 'hash', d[i + 1:]
+        return steps, ('hash' if not d[i + 1:].strip(WS) else 'other'), d[i + 1:]
     return steps, 'other', d[i:]
 
 
